@@ -261,10 +261,16 @@ def check_apply(ctx, din, dout, r, cp, cplx, extra_form=None, basis=None, seed=N
         ctx.case(desc, nontriv, f"apply/{name}/{'cp' if cp else 'noncp'}/{'square' if di0 == di1 and do0 == do1 else 'rect'}")
         flat_in = [k for row in obj for k in (row if isinstance(row, list) else [row])]
         snap = snapshot(flat_in + [X])
+        jX, jphi = jmat(X), jkraus(obj)          # exact forms taken before the implementation sees the arrays
         impl = call(apply_channel, X, obj)
-        model = ctx.lean().ask("c04_apply_kraus", {"X": jmat(X), "phi": jkraus(obj)})
+        model = ctx.lean().ask("c04_apply_kraus", {"X": jX, "phi": jphi})
         oracle = spec_apply([Z.of(a) for a in LA], [Z.of(b) for b in LB], zX)
-        info = {"case_seed": seed, "function": "apply_channel", "args": desc, "X": jmat(X), "phi": jkraus(obj), "theorem": "applyKraus_eq_spec"}
+        info = {"case_seed": seed, "function": "apply_channel", "args": desc, "X": jX, "phi": jphi, "theorem": "applyKraus_eq_spec"}
+        if not unchanged(flat_in + [X], snap):
+            ok = False
+            ctx.violation(f"apply_channel[{name}]: caller's arrays were modified", info)
+            for o, sn in zip(flat_in + [X], snap):
+                o[...] = sn
         if "reject" in model:
             ok = False
             ctx.violation(f"apply_channel[{name}]: model rejects a well-formed call ({model['reject']})", dict(info, impl=str(impl)[:300]))
@@ -284,18 +290,15 @@ def check_apply(ctx, din, dout, r, cp, cplx, extra_form=None, basis=None, seed=N
             ok = False
             ctx.violation(f"apply_channel[{name}]: output differs from sum_i A_i X B_i^dagger (model agree={good_model}, oracle agree={good_spec})",
                           dict(info, impl=safe_jmat(impl[1]), model=model))
-        if not unchanged(flat_in + [X], snap):
-            ok = False
-            ctx.violation(f"apply_channel[{name}]: caller's arrays were modified", info)
         # ---- Kraus -> Choi
         if name == "triples":
             continue  # channel_dim documents only the four forms
         desc2 = dict(base, fn="kraus_to_choi", form=name)
         ctx.case(desc2, nontriv, f"kraus_to_choi/{name}")
         implJ = call(kraus_to_choi, obj)
-        modelJ = ctx.lean().ask("c04_kraus_to_choi", {"phi": jkraus(obj), "sys": 2})
+        modelJ = ctx.lean().ask("c04_kraus_to_choi", {"phi": jphi, "sys": 2})
         oracleJ = spec_choi([Z.of(a) for a in LA], [Z.of(b) for b in LB])
-        info2 = {"case_seed": seed, "function": "kraus_to_choi", "args": desc2, "phi": jkraus(obj), "theorem": "krausToChoi_eq_spec"}
+        info2 = {"case_seed": seed, "function": "kraus_to_choi", "args": desc2, "phi": jphi, "theorem": "krausToChoi_eq_spec"}
         if "reject" in modelJ or implJ[0] != "ok":
             ok = False
             ctx.violation(f"kraus_to_choi[{name}]: {'model rejects' if 'reject' in modelJ else 'implementation ' + implJ[0]} on a valid call",
@@ -324,9 +327,10 @@ def check_apply(ctx, din, dout, r, cp, cplx, extra_form=None, basis=None, seed=N
         desc3 = dict(base, fn="apply_channel", form="choi-of-" + name)
         ctx.case(desc3, nontriv, "apply/choi/" + ("square" if di0 == di1 and do0 == do1 else "rect"))
         snapJ = snapshot([J, Xl])
+        jJ = jmat(J)
         implC = call(apply_channel, Xl, J)
-        modelC = ctx.lean().ask("c04_apply_choi", {"X": jmat(Xl), "J": jmat(J)})
-        info3 = {"case_seed": seed, "function": "apply_channel", "args": desc3, "X": jmat(Xl), "J": jmat(J), "theorem": "apply_repr_independent"}
+        modelC = ctx.lean().ask("c04_apply_choi", {"X": jX, "J": jJ})
+        info3 = {"case_seed": seed, "function": "apply_channel", "args": desc3, "X": jX, "J": jJ, "theorem": "apply_repr_independent"}
         if "reject" in modelC or implC[0] != "ok":
             ok = False
             ctx.violation(f"apply_channel[choi]: {'model rejects' if 'reject' in modelC else 'implementation ' + implC[0] + ' ' + str(implC[1])} on a valid call", info3)
@@ -398,14 +402,14 @@ def check_choi_to_kraus(ctx, din, dout, kind, cplx, dim_form="mat", seed=None):
     nontriv = rows > 1 and cols > 1
     ctx.case(desc, nontriv, f"choi_to_kraus/{kind}/{'square' if din[0] == din[1] and dout[0] == dout[1] else 'rect'}/{dim_form}")
     snap = snapshot([J])
-    impl = call(choi_to_kraus, J, dim=dim)
     info = {"case_seed": seed, "function": "choi_to_kraus", "args": desc, "J": jmat(J), "dim": dim, "theorem": "kraus_of_choi_reproduces"}
+    zJ = Z.of(J)
+    impl = call(choi_to_kraus, J, dim=dim)
     if impl[0] != "ok":
         return not ctx.violation(f"choi_to_kraus: implementation {impl[0]} ({impl[1]}) on a valid call", info)
     kraus = impl[1]
     if not unchanged([J], snap):
         return not ctx.violation("choi_to_kraus: caller's array was modified", info)
-    zJ = Z.of(J)
     scale = max(1, zJ.maxabs())
     # shapes
     flat = not (len(kraus) and isinstance(kraus[0], list))
@@ -545,6 +549,8 @@ def check_partial(ctx, rd, cd, sys, dout, r, form, cplx, dim_form="list", sys_de
         impl = call(partial_channel, rho, phi_py, sys, dim)
     model = ctx.lean().ask(op, margs)
     info = {"case_seed": seed, "function": "partial_channel", "args": desc, "model_op": op, "model_args": margs, "theorem": "partialChannel_eq_id_tensor"}
+    if not unchanged([rho] + ([phi_py] if form == "choi" else [k for row in obj for k in (row if isinstance(row, list) else [row])]), snap):
+        return not ctx.violation(f"partial_channel[{form}]: caller's arrays were modified", info)
     if "reject" in model:
         return not ctx.violation(f"partial_channel[{form}]: model rejects a well-formed call ({model['reject']})", dict(info, impl=str(impl)[:200]))
     if impl[0] != "ok":
